@@ -499,6 +499,7 @@ func runC18(c *Ctx) {
 	checkClientStopAlwaysStopsQueue(c, "C18-R5")
 	checkSpawnGuardsAreAtomicTestAndSet(c, "C18-R5")
 	checkNeutrinoProducerDiscipline(c, "C18-R4", "bc")
+	checkNeutrinoStartResetsOnlyWhenStopped(c, "C18-R5")
 	checkProducerNotifiesRelevantTxOnce(c, "C18-R4")
 	checkReorgListBuiltInOneDirection(c, "C18-R4") // the producer enqueues a reorganised branch in chain order
 }
@@ -807,14 +808,21 @@ func sendsOf(fn *ssa.Function, typeName string) []ssa.Instruction {
 // checkNeutrinoProducerDiscipline: necessary conditions on the light-client producer's hand-overs, each visible in the
 // shape of one callback:
 // (a) a block-disconnected event is always handed over: in a callback that enqueues BlockDisconnected no return is
-//     reachable without having passed that hand-over (its quit cases belong to it) — "only while no rescan is catching
-//     up" loses the disconnects of a reorganisation that happens during a key rescan;
+//
+//	reachable without having passed that hand-over (its quit cases belong to it) — "only while no rescan is catching
+//	up" loses the disconnects of a reorganisation that happens during a key rescan;
+//
 // (b) a block's own notification precedes the rescan-finished it may trigger: where a callback enqueues a connected
-//     block and calls the rescan-finished dispatcher, the dispatcher is not reachable without the hand-over;
+//
+//	block and calls the rescan-finished dispatcher, the dispatcher is not reachable without the hand-over;
+//
 // (c) rescan-finished is announced in the finished state: every hand-over of RescanFinished is preceded by the store
-//     finished = true in its function (otherwise the next block announces progress and a second rescan-finished);
+//
+//	finished = true in its function (otherwise the next block announces progress and a second rescan-finished);
+//
 // (d) the rescan-finished of a running rescan is not switched off by an unrelated request: a function that tests whether
-//     a rescan is running stores finished = true only past the edge on which none is.
+//
+//	a rescan is running stores finished = true only past the edge on which none is.
 func checkNeutrinoProducerDiscipline(c *Ctx, rule string, parts string) {
 	p := c.P
 	storesFlag := func(fn *ssa.Function, field string, val bool) []ssa.Instruction {
@@ -975,4 +983,50 @@ func checkNeutrinoProducerDiscipline(c *Ctx, rule string, parts string) {
 	if strings.Contains(parts, "d") {
 		c.Floor(rule, "finished-flag stores in functions that test for a running rescan", nD, 1)
 	}
+}
+
+// checkNeutrinoStartResetsOnlyWhenStopped: Start() gives the client fresh channels. It does so only on the edge on which
+// the client is not started: replaced while the notification handler of a running client still holds the old ones, every
+// producer sends into a channel nobody reads.
+func checkNeutrinoStartResetsOnlyWhenStopped(c *Ctx, rule string) {
+	p := c.P
+	start := p.Func("chain", "NeutrinoClient", "Start")
+	if start == nil {
+		c.Unresolved(rule, "chain.NeutrinoClient.Start")
+		return
+	}
+	notStarted := func(from *ssa.BasicBlock, si int) bool {
+		f := edgeFactOf(from, si)
+		if f == nil || f.Kind != "false" {
+			return false
+		}
+		_, fld, _, ok := fieldOf(stripConv(f.V))
+		return ok && fld == "started"
+	}
+	n := 0
+	for _, f := range p.regionOf(start) {
+		for _, b := range f.Blocks {
+			for _, ins := range b.Instrs {
+				st, ok := ins.(*ssa.Store)
+				if !ok {
+					continue
+				}
+				fa, ok := st.Addr.(*ssa.FieldAddr)
+				if !ok {
+					continue
+				}
+				tn, fld := fieldAddrName(fa)
+				if tn != "NeutrinoClient" {
+					continue
+				}
+				if _, isChan := st.Val.Type().Underlying().(*types.Chan); !isChan {
+					continue
+				}
+				n++
+				c.Check(rule, "start-resets-channels-only-when-stopped:"+fld, st.Pos(), f != start || !reachableAvoiding(start, nil, st, notStarted),
+					"NeutrinoClient.Start replaces the channel "+fld+" although the client may be running: the live notification handler keeps the old channel, producers block on the new one and every later notification is lost")
+			}
+		}
+	}
+	c.Floor(rule, "channel fields (re)created by NeutrinoClient.Start", n, 2)
 }
